@@ -1,5 +1,8 @@
 import EmsModel.Core.ClipProto
-/-! Line-protocol driver for C09 / C08 (applying clip masks); see `Core/ClipProto.lean`. -/
+import EmsModel.Core.ClipSurvivors
+/-! Line-protocol driver for C09 / C08 (applying clip masks); see `Core/ClipProto.lean`, and
+`Core/ClipSurvivors.lean` for the `survivors` op (which nodes / edges a clipped mesh keeps). -/
 open Ems Ems.Proto
-def step (line : String) : String := (Ems.ClipProto.step? (words line)).getD "BAD"
+def step (line : String) : String :=
+  ((Ems.ClipProto.step? (words line)).orElse fun _ => Ems.SurvivorsProto.step? (words line)).getD "BAD"
 def main : IO Unit := loop step
